@@ -91,7 +91,7 @@ def one(ctx, rng, xr, model, dmod, disp, direct):
     key = "%s|%s|%s" % (model, via, ",".join("%s=%s" % kv for kv in sorted(opts.items())))
     kw = {}
     if model == "ndbc":
-        kw = {"directional": bool(rng.random() < 0.75), "dd": float(rng.choice([10.0, 5.0, 20.0, 45.0]))}
+        kw = {"directional": bool(rng.random() < 0.75), "dd": float(rng.choice([10.0, 5.0, 20.0, 45.0, 7.5, 2.5, 7.2, 3.6, 14.4, 1.8, 0.9, 12.0]))}
         key += "|directional=%s" % kw["directional"]
     if "reader_options" in t:
         kw = dict(t["reader_options"])
@@ -166,6 +166,8 @@ def one(ctx, rng, xr, model, dmod, disp, direct):
             return
     if model == "ndbc":
         return ndbc_check(rec, key, out, t, kw, opts)
+    if np.any(t["E"] == 0.0):
+        rec.note("truth_with_exactly_zero_bins:" + model)
     # ---- names and dims --------------------------------------------------------------------------
     if "efth" not in getattr(out, "data_vars", {}) or not {"freq", "dir"} <= set(out["efth"].dims):
         rec.bad("convention", key, {"data_vars": list(getattr(out, "data_vars", [])), "dims": dict(getattr(out, "sizes", {}))},
